@@ -720,10 +720,19 @@ def rpow(p, e):
         ((m, c),) = p.t.items()
         out = Poly.const(1)
         # coefficient
-        if c.im != 0:
-            raise AlgError("rational power of a complex coefficient")
-        if c.re < 0:
-            raise AlgError("rational power of a negative coefficient")
+        if c.im != 0 or c.re < 0:
+            # sign / phase cannot be distributed over the factors: keep the signed monomial under the root
+            e = Fr(e)
+            ip = math.floor(e)
+            fr = e - ip
+            mag = abs(c.re) if c.im == 0 else Fr(1)
+            sgn = Poly({m: (GQ(-1) if c.im == 0 else c)})
+            res = rpow(Poly.const(mag), e) if mag != 1 else Poly.const(1)
+            if ip:
+                res = res * (sgn**ip)
+            if fr:
+                res = res * Poly.atom(("R", sgn, fr.denominator), fr.numerator)
+            return res
         num, den = c.re.numerator, c.re.denominator
         out = out * _int_rpow(num, e) * _int_rpow(den, -e)
         d = {}
@@ -747,6 +756,14 @@ def rpow(p, e):
             return absval(b) ** (e * n)
         return b ** (e * n)
     c0, g, q = primitive(p)
+    if c0.im != 0 or c0.re < 0:
+        # keep the sign / phase inside the root: only a positive content is pulled out
+        if c0.im == 0:
+            q = -q
+            c0 = GQ(-c0.re)
+        else:
+            q = q.scale(c0)
+            c0 = ONE
     e = Fr(e)
     ip = math.floor(e)
     fr = e - ip
